@@ -1,5 +1,6 @@
 from fontTools.config import OPTIONS
 from fontTools.misc.textTools import Tag, bytesjoin
+from fontTools.misc.lazyTools import LazyList
 from .DefaultTable import DefaultTable
 from enum import IntEnum
 import sys
@@ -903,6 +904,13 @@ class BaseTable(object):
             del self.font
             self.decompile(reader, font)
         if recurse:
+            # Arrays of fixed-size records read from a lazy font are LazyList
+            # objects, which iterSubTables() does not treat as lists: resolve
+            # them first so that their items are decompiled as well.
+            for conv in self.getConverters():
+                value = self.__dict__.get(conv.name)
+                if isinstance(value, LazyList):
+                    setattr(self, conv.name, list(value))
             for subtable in self.iterSubTables():
                 subtable.value.ensureDecompiled(recurse)
 
